@@ -63,7 +63,7 @@ func genOriginCase(t *rapid.T) OriginCase {
 		return h + ":" + p
 	}
 	c.HasOrigin = true
-	kinds := []string{"absent", "same", "same-case", "edit", "add-label", "remove-label", "prefix-lookalike", "suffix-lookalike", "port-different", "port-missing-or-added", "userinfo-evil", "userinfo-benign", "unicode-fold", "percent", "null", "junk", "fragment-trick", "other-host", "backslash", "ipv6-variant", "scheme-less", "nonascii-tail", "shift32", "two-origins"}
+	kinds := []string{"absent", "same", "same-case", "edit", "add-label", "remove-label", "prefix-lookalike", "suffix-lookalike", "port-different", "port-missing-or-added", "userinfo-evil", "userinfo-benign", "unicode-fold", "percent", "null", "junk", "fragment-trick", "other-host", "backslash", "ipv6-variant", "scheme-less", "nonascii-tail", "shift32", "two-origins", "pct-delim"}
 	c.Kind = rapid.SampledFrom(kinds).Draw(t, "kind")
 	switch c.Kind {
 	case "absent":
@@ -189,6 +189,10 @@ func genOriginCase(t *rapid.T) OriginCase {
 		}
 		b[pos] = rapid.SampledFrom(cands).Draw(t, "shiftto")
 		c.Origin = scheme + "://" + string(b) + tail
+	case "pct-delim":
+		// a percent-encoded URL delimiter next to a copy of the Host: decoded
+		// before parsing it would re-split the authority
+		c.Origin = scheme + "://" + rapid.SampledFrom([]string{c.Host + "%2F@evil.test", c.Host + "%2f@evil.test", c.Host + "%3F@evil.test", c.Host + "%23@evil.test", "evil.test%40" + c.Host, c.Host + "%2F.evil.test", c.Host + "%40evil.test", "evil.test%2F@" + c.Host + "%40evil.test", c.Host + "%3A80@evil.test", "evil.test%23@" + c.Host + "%2F"}).Draw(t, "pctdelim") + tail
 	case "two-origins":
 		c.Origin = scheme + "://" + rapid.SampledFrom([]string{"evil.com", "x" + c.Host, "%zz", c.Host + ".evil.com"}).Draw(t, "first_origin") + tail
 		c.Origin2 = rapid.SampledFrom([]string{"http://", "https://"}).Draw(t, "scheme2") + c.Host
@@ -256,6 +260,15 @@ func checkC13(c OriginCase, o *Obs) error {
 		h["X-Original-Host"] = []string{oh}
 		fwd = "X-Forwarded-Host: " + oh + "\r\nForwarded: host=" + oh + ";proto=https\r\nX-Forwarded-Proto: https\r\nX-Original-Host: " + oh + "\r\n"
 		o.Class("forwarding_headers_name_the_origin_host")
+	}
+	if c.HasOrigin && len(c.Origin)%3 != 0 {
+		// fetch metadata is the client's own account of the request; the default
+		// policy is stated in terms of Origin and Host alone
+		h["Sec-Fetch-Site"] = []string{"same-origin"}
+		h["Sec-Fetch-Mode"] = []string{"websocket"}
+		h["Sec-Fetch-Dest"] = []string{"websocket"}
+		fwd += "Sec-Fetch-Site: same-origin\r\nSec-Fetch-Mode: websocket\r\nSec-Fetch-Dest: websocket\r\n"
+		o.Class("fetch_metadata_claims_same_origin")
 	}
 	direct := &http.Request{Method: "GET", URL: &url.URL{Path: "/"}, Proto: "HTTP/1.1", ProtoMajor: 1, ProtoMinor: 1, Header: h, Host: c.Host}
 	if len(c.Host)%2 == 0 {
